@@ -21,6 +21,7 @@ func VerifH_C27_NoDeadlock() {
 	vfTimeHorizon(10 * 60 * 1000) // channel token renewal (45 min) is outside the scenario
 	vfPreempt(false)
 	nextSub, publishes := uint32(5), 0
+	dataOnce := false
 	live := map[uint32]bool{} // the subscriptions the server holds
 	published := make(chan struct{}, 64)
 	c := vfConnectedClient(func(req ua.Request) ua.Response {
@@ -52,6 +53,16 @@ func VerifH_C27_NoDeadlock() {
 				h.ServiceResult = ua.StatusBadNoSubscription
 				return &ua.ServiceFault{ResponseHeader: h}
 			}
+			if dataOnce {
+				// one data change notification, which the application is slow to pick up
+				dataOnce = false
+				any := uint32(0)
+				for id := range live {
+					any = id
+				}
+				return &ua.PublishResponse{ResponseHeader: vfRH(), SubscriptionID: any, NotificationMessage: &ua.NotificationMessage{SequenceNumber: 1,
+					NotificationData: []*ua.ExtensionObject{ua.NewExtensionObject(&ua.DataChangeNotification{MonitoredItems: []*ua.MonitoredItemNotification{{ClientHandle: 1, Value: &ua.DataValue{EncodingMask: ua.DataValueValue, Value: ua.MustVariant(int32(1))}}}})}}}
+			}
 			if h := r.RequestHeader.TimeoutHint; h == 0 || h > 60000 {
 				// the client would wait (practically) for ever: the server's keep-alive comes first
 				any := uint32(0)
@@ -74,7 +85,7 @@ func VerifH_C27_NoDeadlock() {
 		return sub
 	}
 	vfPreempt(true)
-	switch vfConcrete(vfInt("script", 0, vfParam("c27.scripts", 5)-1)) {
+	switch vfConcrete(vfInt("script", 0, vfParam("c27.scripts", 6)-1)) {
 	case 0: // a subscription is cancelled twice
 		s := subscribe()
 		s.Cancel(ctx)
@@ -86,6 +97,22 @@ func VerifH_C27_NoDeadlock() {
 		s := subscribe()
 		c.ForgetSubscription(ctx, s.SubscriptionID)
 		s.Cancel(ctx)
+	case 5: // a data change the application has not read yet (unbuffered channel), then Cancel from the same goroutine
+		dataOnce = true
+		slow := make(chan *PublishNotificationData)
+		sub, err := c.Subscribe(ctx, &SubscriptionParameters{}, slow)
+		vfAssert(err == nil && sub != nil, "Subscribe fails")
+		if sub != nil {
+			<-published // the publish request that is answered with the data change
+			vfSettle()  // the notification is now waiting to be delivered
+			sub.Cancel(ctx)
+			// the application does pick its notifications up eventually (a consumer that never
+			// reads blocks the delivery, and with it the loop, by design)
+			go func() {
+				for range slow {
+				}
+			}()
+		}
 	case 4: // two application goroutines
 		done := make(chan bool, 2)
 		for i := 0; i < 2; i++ {
